@@ -104,7 +104,7 @@ def tlc(module, cfg, workdir, env=None, workers=1, timeout=900, xmx="3g", extra=
         jopts += " -Dtlc2.tool.queue.IStateQueue=StateDeque"
     cmd = ["timeout", str(timeout), "java", "-XX:+UseParallelGC", "-Xmx" + xmx, "-cp", JAVA_CP, "tlc2.TLC",
            "-workers", str(workers), "-metadir", meta, "-cleanup", "-noGenerateSpecTE",
-           "-config", os.path.join(SPEC, cfg)] + (extra or []) + [os.path.join(SPEC, module + ".tla")]
+           "-config", cfg if os.path.isabs(cfg) else os.path.join(SPEC, cfg)] + (extra or []) + [os.path.join(SPEC, module + ".tla")]
     e = {"JAVA_TOOL_OPTIONS": jopts}
     if env:
         e.update(env)
@@ -261,6 +261,13 @@ def finish(ctx, level="model_checking", rule=None):
     return 1 if real else 0
 
 
+def mkcfg(ctx, name, text):
+    """write a generated TLC configuration into the work directory (e.g. to pass VERIF_SEED as a constant)"""
+    path = os.path.join(ctx.work, name)
+    open(path, "w").write(text)
+    return path
+
+
 def gen_and_replay(ctx, module, cfg, family, what, timeout=600, workers=1, extra_replay=None):
     """spec -> impl: TLC enumerates the behaviours / transitions of a bounded model and prints one JSON
     line each; the driver replays them into the real code. Mismatch with L1 = violation, with L2 = drift."""
@@ -269,7 +276,8 @@ def gen_and_replay(ctx, module, cfg, family, what, timeout=600, workers=1, extra
     gen, dist = tlc_stats(out)
     if "Model checking completed. No error has been found." not in out:
         raise ToolError("vector generator %s/%s failed (rc=%s)\n%s" % (module, cfg, rc, out[-3000:]))
-    vec = os.path.join(ctx.work, "vec_%s.ndjson" % cfg.replace(".cfg", ""))
+    cfg = os.path.basename(cfg)
+    vec = os.path.join(ctx.work, "vec_%s_%s.ndjson" % (cfg.replace(".cfg", ""), family))
     n = 0
     with open(vec, "w") as f:
         for line in out.splitlines():
